@@ -582,6 +582,18 @@ pub fn run(ctx: &Ctx, rep: &mut Report) {
                 for ep in &eps {
                     matrix(rep, &mut w.u, ep, &stranger, "registered");
                 }
+                // gas amounts the gas service refuses: nobody's authorisation (and no lack of it) may
+                // let the request through in the named address's name
+                {
+                    let zero_eps = vec![
+                        Ep { valid: false, name: "its.deploy_remote_canonical_token", named: payer.clone(), counterparty: Some(caller.clone()), owner: Some(owner.clone()), call: mk_canon(0), other_args: vec![] },
+                        Ep { valid: false, name: "its.deploy_remote_canonical_token", named: payer.clone(), counterparty: Some(caller.clone()), owner: Some(owner.clone()), call: mk_canon(-1), other_args: vec![] },
+                        Ep { valid: false, name: "its.deploy_remote_interchain_token", named: caller.clone(), counterparty: Some(other_user.clone()), owner: Some(owner.clone()), call: mk_remote(0), other_args: vec![] },
+                    ];
+                    for (i, ep) in zero_eps.iter().enumerate() {
+                        matrix(rep, &mut w.u, ep, &stranger, ["registered,gas-zero", "registered,gas-negative", "registered,gas-zero"][i]);
+                    }
+                }
                 // the named addresses have pre-approved the service, the gas service and the gateway
                 // on the token and on the gas token
                 {
